@@ -135,7 +135,7 @@ static int canary_bad(struct slot *s, unsigned char fill) {
   return 0;
 }
 
-static enum asm_opt optv(int v) { return (enum asm_opt)(v == 0 ? STRICT : v == 1 ? NASM : v == 2 ? SMART : 7); }
+static enum asm_opt optv(int v) { return v == 0 ? STRICT : v == 1 ? NASM : v == 2 ? SMART : (enum asm_opt)v; } /* undocumented values are passed as they are */
 static void setter(assemblyline_t al, const char *s, int v) {
   if (!strcmp(s, "mov")) asm_mov_imm(al, optv(v));
   else if (!strcmp(s, "swap")) asm_sib_index_base_swap(al, optv(v));
